@@ -8,6 +8,8 @@ filt = sys.argv[2] if len(sys.argv) > 2 else ''
 F,_=engine.load_configs([key]); F=F[key]
 roots=[b.path for b in F.bodies if b.kind in ('Fn','AssocFn') and not any(re.search(g,b.path) for g in c17.GENERATED)]
 envs=layout.variant_envs(F)
+from rules.props import simd
+panics.RET_SUMMARY[0] = {k_: (0, v_) for k_, v_ in simd.scalar_kernel_return_max(F).items()}
 sites,reach,G=panics.collect(F, roots)
 sites=[s for s in sites if not any(re.search(g, s.body.path) for g in c17.GENERATED)]
 panics.discharge(F, sites, envs)
